@@ -27,6 +27,12 @@ theorem Attrs.get_set (a : Attrs) (k : String) (v : Val) : (Attrs.set a k v).get
       simp only [Attrs.set, h, if_false, Attrs.get?, List.lookup_cons, hb]
       exact ih
 
+/-- where the theorems meet the generated relabelling offsets: the shared store numbers an imported graph from its
+    `start_id`, the disjoint store from 1 (`gen/serial.py` reads `first_label` out of `add_graph` / `add_graph_direct`) -/
+@[simp] theorem sharedFirst_eval (n : Nat) : Gen.Serial.sharedFirstLabel.eval n = n := rfl
+@[simp] theorem disjointFirst_eval (n : Nat) : Gen.Serial.disjointFirstLabel.eval n = 1 := rfl
+theorem initialStartId_pos : 0 < Gen.Serial.initialStartId := by decide
+
 variable {κ : Type} [DecidableEq κ]
 
 theorem idxOf_inj (ks : List κ) : ∀ x ∈ ks, ∀ y ∈ ks, ks.idxOf x = ks.idxOf y → x = y := by
